@@ -61,6 +61,17 @@ class Cluster:
         self._bond_threshold = bond_threshold
         self._distance_matrix_radii_mic = None
 
+    @property
+    def indices(self):
+        return self._indices
+
+    @indices.setter
+    def indices(self, indices):
+        # Everything that has been derived from the old indices is stale.
+        self._indices = indices
+        self._distance_matrix_radii_mic = None
+        self._dimensionality = None
+
     def __len__(self):
         return len(self.indices)
 
